@@ -167,7 +167,10 @@ Fixpoint split_slash (p : bytes) (cur : bytes) : list bytes :=
   | [] => [cur]
   | c :: r => if c =? SLASH then cur :: split_slash r [] else split_slash r (cur ++ [c])
   end.
-Definition join (d n : bytes) : bytes := match d with [] => n | _ => d ++ [SLASH] ++ n end.
+(* path.Join(d, n): empty elements are ignored ("." and ".." elements, which path.Join also
+   rewrites, cannot occur in an index and are not modelled) *)
+Definition join (d n : bytes) : bytes :=
+  match n with [] => d | _ => match d with [] => n | _ => d ++ [SLASH] ++ n end end.
 
 Fixpoint walk_parts (parent : path) (parts : list bytes) : list (path * path * bytes) :=
   match parts with
